@@ -241,6 +241,30 @@ def main():
                                   {"kind": "closed_form", "grid": [nx_, ny_], "values": vals, "node": node}, klass={"check": "closed_form", "node0": node == 0})
                     break
     chk.extra["closed_form_slices"] = ncf
+    # the NUMERICAL mode against the same closed form on a column that is tall against the cell size (components decay by up to
+    # exp(-50) over the column, by far less at a low node): near the surface every retained component still converges
+    ntall = 0
+    for vals, q_cells in (((3.0, 1.0, 2.0, 2.0, 1.0), ((3, 5, 1.0), (6, 20, -0.5))), ((-2.0, 2.5, 3.0, 1.5, 1.0), ((1, 30, 1.0),))):
+        nx_, ny_, domc = 32, 8, (64.0, 16.0)
+        qc = np.zeros((ny_, nx_))
+        for j_, i_, a_ in q_cells:
+            qc[j_, i_] = a_
+        u_, v_, Kx_, Ky_, Kz_ = vals
+        kk = 2 * np.pi * np.fft.fftfreq(nx_, d=domc[0] / nx_)[None, :]
+        ll = 2 * np.pi * np.fft.fftfreq(ny_, d=domc[1] / ny_)[:, None]
+        beta = np.sqrt((Kx_ * kk ** 2 + Ky_ * ll ** 2 + 1j * (u_ * kk + v_ * ll)) / Kz_ + 0j)
+        errs = []
+        for nn in (32, 64, 128):
+            zc = np.linspace(0.1, 16.1, nn + 1)
+            profc = tuple(np.full(nn + 1, v_) for v_ in vals)
+            _, pc, fc = _steady(qc, zc, profc, domc, [nn // 8], modes=(nx_, ny_), halo=0.0, precision="double")
+            want_f = np.fft.ifft2(np.fft.fft2(qc) * np.exp(-beta * (zc[nn // 8] - zc[0]))).real
+            errs.append(float(np.max(np.abs(np.asarray(fc).reshape(ny_, nx_) - want_f))) / float(np.max(np.abs(want_f))))
+            ntall += 1
+        if errs[0] > 1e-7 and not (errs[1] < errs[0] / 3.0 and errs[2] < errs[1] / 3.0):
+            chk.violation("numerical mode on a 16 m column over 2 m cells, uniform (u, v, Kx, Ky, Kz) = %s, flux 2 m above the surface: the error against the closed form is %.3e, %.3e, %.3e with 32, 64, 128 layers - it does not shrink with the layer thickness"
+                          % (vals, errs[0], errs[1], errs[2]), {"kind": "numeric_vs_closed_form_tall_column", "values": vals, "errors": errs}, klass={"check": "numeric_closed_form_tall"})
+    chk.extra["tall_column_solves"] = ntall
     chk.extra["numeric_vs_analytic_slots"] = nslot
     chk.traces += len(r.emitted)
     chk.extra["probe_points"] = len(r.emitted)
